@@ -59,6 +59,9 @@ func scaleSource(shape string, n int) string {
 			descent(false)
 		}
 		sb.WriteString("def t { print 7 }\n")
+	case "many-consts":
+		sb.WriteString(strings.Repeat("eval 7\n", n))
+		sb.WriteString("def zz { q = 1\n q = q + 1\n print q }\nprint 7\n")
 	case "bind-late":
 		sb.WriteString("def filler {\n")
 		for i := 0; i < n; i++ {
